@@ -318,7 +318,16 @@ func (c *Connection) SendJSON(v interface{}) error {
 
 // Close closes the connection
 func (c *Connection) Close() error {
-	c.hub.unregister <- c
+	// The hub loop is the only receiver of unregister, and handlers run on that
+	// loop: ws.close() in a message handler must not make the loop wait for
+	// itself. The request is handed over from a goroutine, which gives up when
+	// the hub shuts down.
+	go func() {
+		select {
+		case c.hub.unregister <- c:
+		case <-c.hub.shutdown:
+		}
+	}()
 	return c.conn.Close()
 }
 
